@@ -284,6 +284,72 @@ theorem casesStep_ops (X : SchemaX) (cx : Cx) (choice : STree) (sibs : List DNod
     exact (delSeq_evs X cx true _ sibs [] e' he').1
   · simp at he
 
+theorem delCases_quiet (X : SchemaX) (cx : Cx) (E : List DNode) (kf : Nat) : ∀ (cs : List STree) (sibs : List DNode),
+    (delCases X cx E kf cs sibs).2 = [] → (delCases X cx E kf cs sibs).1 = sibs
+  | [], _, _ => by rw [delCases]
+  | c :: rest, sibs, he => by
+    rw [delCases] at he ⊢
+    by_cases hk : (caseFound E c == kf) = true
+    · simp only [hk, if_true] at he ⊢
+      exact delCases_quiet X cx E kf rest sibs he
+    · have hk' : (caseFound E c == kf) = false := by simpa using hk
+      simp only [hk', Bool.false_eq_true, if_false, List.append_eq_nil_iff] at he ⊢
+      have v := delSeq_quiet X cx true (inSids c.dataSids) sibs [] (fun _ _ _ => Or.inl rfl) he.1
+      have h1 : (delSeq X cx true (inSids c.dataSids) [] sibs).1 = sibs := by
+        rw [delSeq_no_victims X cx true _ sibs [] v]; rfl
+      rw [h1] at he ⊢
+      exact delCases_quiet X cx E kf rest sibs he.2
+
+theorem delCases_ops (X : SchemaX) (cx : Cx) (E : List DNode) (kf : Nat) : ∀ (cs : List STree) (sibs : List DNode),
+    ∀ e ∈ (delCases X cx E kf cs sibs).2, e.op = .delete
+  | [], _, e, he => by rw [delCases] at he; cases he
+  | c :: rest, sibs, e, he => by
+    rw [delCases] at he
+    split at he
+    · exact delCases_ops X cx E kf rest sibs e he
+    · dsimp only at he
+      rcases List.mem_append.1 he with he | he
+      · exact (delSeq_evs X cx true _ sibs [] e he).1
+      · exact delCases_ops X cx E kf rest _ e he
+
+theorem casesStepFix_quiet (X : SchemaX) (cx : Cx) (choice : STree) (sibs : List DNode) (he : (casesStepFix X cx choice sibs).2.evs = []) :
+    (casesStepFix X cx choice sibs).1 = sibs := by
+  unfold casesStepFix at he ⊢
+  split
+  · rfl
+  · rfl
+  · rename_i hsc
+    rw [hsc] at he
+    simp only [ofEvs_evs, List.map_eq_nil_iff] at he
+    exact delCases_quiet X cx _ _ _ sibs he
+
+theorem casesStepFix_ops (X : SchemaX) (cx : Cx) (choice : STree) (sibs : List DNode) :
+    ∀ e ∈ (casesStepFix X cx choice sibs).2.evs, e.op = .delete := by
+  intro e he
+  unfold casesStepFix at he
+  split at he
+  · simp [Out.err_evs] at he
+  · simp at he
+  · simp only [ofEvs_evs, List.mem_map] at he
+    obtain ⟨e', he', rfl⟩ := he
+    exact delCases_ops X cx _ _ _ sibs e' he'
+
+/-- both variants of `lyd_validate_cases` (F321): no event, no change; every event is a deletion -/
+theorem casesStepQ_quiet (X : SchemaX) (cx : Cx) (choice : STree) (sibs : List DNode) (he : (casesStepQ X cx choice sibs).2.evs = []) :
+    (casesStepQ X cx choice sibs).1 = sibs := by
+  unfold casesStepQ at he ⊢
+  split
+  · rename_i h; simp only [h, if_true] at he; exact casesStep_quiet X cx choice sibs he
+  · rename_i h; simp only [h, if_false] at he; exact casesStepFix_quiet X cx choice sibs he
+
+theorem casesStepQ_ops (X : SchemaX) (cx : Cx) (choice : STree) (sibs : List DNode) :
+    ∀ e ∈ (casesStepQ X cx choice sibs).2.evs, e.op = .delete := by
+  intro e he
+  unfold casesStepQ at he
+  split at he
+  · exact casesStep_ops X cx choice sibs e he
+  · exact casesStepFix_ops X cx choice sibs e he
+
 mutual
 theorem choiceR_quiet_T (X : SchemaX) (cx : Cx) : ∀ (t : STree) (sibs : List DNode),
     ((choiceRNode X cx t sibs).2.evs = [] → (choiceRNode X cx t sibs).1 = sibs) ∧
@@ -298,7 +364,7 @@ theorem choiceR_quiet_T (X : SchemaX) (cx : Cx) : ∀ (t : STree) (sibs : List D
         · dsimp only
           intro he
           rw [Out.append_evs, List.append_eq_nil_iff] at he
-          have h1 := casesStep_quiet X cx (.mk s i ks) sibs he.1
+          have h1 := casesStepQ_quiet X cx (.mk s i ks) sibs he.1
           rw [h1] at he ⊢
           exact (choiceR_quiet_L X cx ks sibs).2.1 he.2
       · intro _; rfl
@@ -312,7 +378,7 @@ theorem choiceR_quiet_T (X : SchemaX) (cx : Cx) : ∀ (t : STree) (sibs : List D
           intro e he
           rw [Out.append_evs, List.mem_append] at he
           rcases he with he | he
-          · exact casesStep_ops X cx _ sibs e he
+          · exact casesStepQ_ops X cx _ sibs e he
           · exact (choiceR_quiet_L X cx ks _).2.2.2 e he
       · intro e he; simp at he
     · rw [choiceRCase]
